@@ -108,6 +108,8 @@ v('c13-combined-reordered', 'C13', 'C13/symbol-table-alignment', 'combined', ('r
 v('c13-gram-deletes-minus', 'C13', 'C13/semantic-members', 'grammar', ('data/syntax/gram_tokenizer.py', "definition.symbol = ''.join(definition.symbol.split('/'))", "definition.symbol = ''.join(definition.symbol.split('`'))"))
 v('c13-quote-order', 'C13', 'C13/domain-order', '"""', ('rogw/tranp/implements/syntax/tranp/token.py', """for quote in ['\"\"\"', "'", '"', "\\\\'", '\\\\"']]""", """for quote in ['"', '\"\"\"', "'", "\\\\'", '\\\\"']]"""))
 
+v('c08-f17-reverted', 'C08', 'C08/template-name-substitution-anchored', 'list_sort', ('data/cpp/template/func_call/list_sort.j2', "reg_replace('\\\\b' ~ entry_name ~ '\\\\b', 'a', entry_value)", "entry_value | replace(entry_name, 'a')"))
+v('c08-f18-reverted', 'C08', 'C08/template-prefix-tests-anchored', 'Iterator', ('data/cpp/template/function/_method_body.j2', "{%- elif return_type.startswith('Iterator<') %}", "{%- elif return_type.startswith('Iterator') %}"))
 # ---- C14 / C15 ----
 v('c14-key-renamed', 'C14', 'C14/record-keys-agree', 'Reflection', ('rogw/tranp/semantics/reflection/serializer.py', "				'origin': symbol.types.fullyname,", "				'org': symbol.types.fullyname,"))
 v('c14-via-from-origin', 'C14', 'C14/field-wiring', 'Options.via', ('rogw/tranp/semantics/reflection/serializer.py', "via = db[data['via']] if data['origin'] != data['via'] else None", "via = db[data['origin']] if data['origin'] != data['via'] else None"))
